@@ -1801,7 +1801,10 @@ func (n *node) unregisterProcess(p *process, reason error) {
 
 	n.RouteTerminatePID(p.pid, reason)
 	// drop links and monitors created by this process
-	n.targetManager.CleanupConsumer(p.pid)
+	linkTargets, monitorTargets := n.targetManager.CleanupConsumer(p.pid)
+	// it could be a consumer of the local events
+	n.eventConsumerGone(linkTargets)
+	n.eventConsumerGone(monitorTargets)
 
 	if p.application != system.Name {
 		// do not count system app processes
@@ -1861,6 +1864,34 @@ func (n *node) unregisterProcess(p *process, reason error) {
 
 func (n *node) isRunning() bool {
 	return atomic.LoadInt64(&n.creation) > 0
+}
+
+// eventConsumerGone counts out a terminated consumer of the local events
+// (the same way as RouteUnlinkEvent/RouteDemonitorEvent do) and notifies
+// the producer if it was the last one.
+func (n *node) eventConsumerGone(targets []any) {
+	for _, target := range targets {
+		ev, ok := target.(gen.Event)
+		if ok == false || ev.Node != n.name {
+			continue
+		}
+		value, exist := n.events.Load(ev)
+		if exist == false {
+			continue
+		}
+		event := value.(*eventOwner)
+		c := atomic.AddInt32(&event.consumers, -1)
+		if event.notify == false || c > 0 {
+			continue
+		}
+		options := gen.MessageOptions{
+			Priority: gen.MessagePriorityHigh,
+		}
+		message := gen.MessageEventStop{
+			Name: ev.Name,
+		}
+		n.RouteSendPID(n.corePID, event.producer, options, message)
+	}
 }
 
 func (n *node) registerAlias(alias gen.Alias, p *process) error {
